@@ -64,6 +64,8 @@ def parse_vrs(text):
                 raise ValueError("directive %s outside extract" % d)
             sub = [d, arg, []]
             cur.subs.append(sub)
+        elif d == "option":
+            o = Section("option", arg); secs.append(o)
         elif d == "unit" or d == "#":
             pass
         else:
@@ -161,7 +163,7 @@ def _sig_edits(S, item, ret_name, nopub, spec_text):
         j += 1
     assert ct[j].text == "(", (ct[j], item)
     pe = match_close(ct, j)
-    body_open = item.body[0]
+    body_open = item.body[0] if item.body else item.end - 1
     if ret_name:
         if ct[pe + 1].text == "-" and ct[pe + 2].text == ">":
             rs = ct[pe + 3].start
@@ -197,6 +199,22 @@ def _anchor_offset(S, item, loops, ifs, anchor):
         return off
     if anchor == "fn:start": return item.body[0] + 1
     if anchor == "fn:end": return item.body[1]
+    if anchor == "fn:before-result":
+        ct = S.ct
+        lo, hi = item.ct_range
+        bi = next(i for i in range(lo, hi) if ct[i].start == item.body[0])
+        e = match_close(ct, bi)
+        pos, i = ct[bi].end, bi + 1
+        while i < e:
+            if ct[i].text in ("(", "[", "{"):
+                j = match_close(ct, i)
+                if ct[i].text == "{" and j + 1 < e and ct[j + 1].text not in (".", "?", ";", "else") and ct[j + 1].kind != rustlex.PUNCT:
+                    pos = ct[j].end
+                i = j
+            elif ct[i].text == ";":
+                pos = ct[i].end
+            i += 1
+        return pos
     m = re.match(r"(before|after):/(.*)/$", anchor)
     if m:
         body = S.text[item.body[0]:item.body[1]]
@@ -260,9 +278,9 @@ def extract_item(gen, repo, sec, sources):
         elif d == "at": ats.append((arg, "\n".join(lines)))
     edits = []
     if item.kind == "fn":
-        if item.body is None: raise LostAnchor("fn %s has no body" % item.name)
         edits += _sig_edits(S, item, ret_name, nopub, spec_text)
-        loops, ifs = _loops_and_ifs(S, item)
+        if item.body is None and ats: raise LostAnchor("fn %s has no body" % item.name)
+        loops, ifs = _loops_and_ifs(S, item) if item.body else ({}, {})
         for anchor, text in ats:
             m = re.match(r"for#(\d+):iter\s+(\w+)$", anchor)
             if m:
@@ -350,6 +368,7 @@ def generate(repo, vrs_path):
     """Returns (text, linemap, gen) or raises LostAnchor."""
     secs = parse_vrs(open(vrs_path, encoding="utf-8").read())
     gen = Generated()
+    gen.options = dict(s.arg.split(None, 1) for s in secs if s.kind == "option")
     sources = {}
     gen.add("// GENERATED by /verif/vf from %s and /repo's working tree -- do not edit\n" % os.path.basename(vrs_path))
     gen.add("#![allow(unused_imports, unused_variables, unused_mut, dead_code, unused_parens, unused_assignments, non_snake_case)]\nuse vstd::prelude::*;\n")
